@@ -19,6 +19,11 @@ Lemma gen_put_pad r L lof : rf_put_pad r L lof = r * L - lof.
 Proof. unfold rf_put_pad. cbv zeta. lia. Qed.
 Lemma gen_put_seek r L fpos : rf_put_seek r L fpos = r * L.
 Proof. unfold rf_put_seek. cbv zeta. lia. Qed.
+(* D25a: get seeks to the record before reading, put flushes after writing *)
+Lemma gen_get_seek r L fpos : rf_get_seek r L fpos = r * L.
+Proof. unfold rf_get_seek. cbv zeta. lia. Qed.
+Lemma gen_put_flushes : rf_put_flushes = true.
+Proof. reflexivity. Qed.
 
 (* ------------------------------------------------------------------------------------------------
    2. lists indexed by Z, default 0 (a byte beyond the end reads as zero) *)
@@ -243,13 +248,13 @@ Qed.
 Lemma get_spec pos f buf :
   let L := rf_reclen f in
   let k := target pos (rf_recpos f) in
-  0 <= L -> 1 <= k -> L <= zlen buf -> pos_ok f ->
+  0 <= L -> 1 <= k -> L <= zlen buf ->
   let '(f', buf') := rf_get pos f buf in
   s_bytes (rf_stream f') = s_bytes (rf_stream f) /\ rf_recpos f' = k /\ rf_reclen f' = L /\ pos_ok f' /\
   buf' = view (s_bytes (rf_stream f)) L k ++ zdrop L buf.
 Proof.
-  intros L k HL Hk Hbuf Hpos. unfold rf_get.
-  destruct (setpos_facts pos f) as [Hb [Hl [Hr Hp]]]. cbv zeta in Hb, Hl, Hr, Hp. specialize (Hp Hpos).
+  intros L k HL Hk Hbuf. unfold rf_get.
+  destruct (setpos_facts pos f) as [Hb [Hl [Hr Hp]]]. cbv zeta in Hb, Hl, Hr, Hp.
   set (f1 := set_record_pos pos f) in *. fold k in Hr. cbv zeta. rewrite Hl. fold L. rewrite Hr.
   unfold rf_lof, s_len. rewrite gen_eof. destruct (gen_next (k - 1)) as [En _]. rewrite En.
   assert (Hoff : 0 <= (k - 1) * L) by nia.
@@ -261,10 +266,8 @@ Proof.
     + unfold set_buffer. rewrite zlen_zeros. replace (L - Z.max 0 L) with 0 by lia.
       rewrite view_beyond by lia. change (zeros 0) with (@nil Z). reflexivity.
   - (* read at the stream position, which is the record *)
-    assert (Hsp : s_pos (rf_stream f1) = (k - 1) * L).
-    { unfold pos_ok in Hp. rewrite Hr, Hl in Hp. fold L in Hp. unfold rf_lof, s_len in Hp. rewrite Hb in Hp.
-      apply Hp. lia. }
-    unfold s_read. rewrite Hb, Hsp. simpl. split; [reflexivity|]. split; [lia|]. split; [reflexivity|]. split.
+    rewrite gen_get_seek. unfold s_read, s_seek. cbn [s_bytes s_pos]. rewrite Hb.
+    simpl. split; [reflexivity|]. split; [lia|]. split; [reflexivity|]. split.
     + unfold pos_ok. simpl. unfold rf_lof, s_len. simpl. intro Hle.
       rewrite zlen_ztake, zlen_zdrop. nia.
     + unfold set_buffer, view. rewrite <- app_assoc. reflexivity.
